@@ -731,4 +731,83 @@ def npArrayRowsE (rows : List (List Int)) : Except Exc4 (Option (Arr2 Int)) :=
   | r :: rs => if rs.all (fun x => x.length == r.length) then .ok (some ⟨r.length, rows⟩) else .error .value
 -- --- end T15
 
+/-! --- T16: distances between distributions (harness/translate_t16.py, property C17): 2-argument `max` / unary minus on numeric
+    values, `math.log` with its domain error, `int(s, 2)` with its ValueError, the union of two key views as a set, the value of a
+    parameter dictionary that is a number or a sequence of numbers, and the elementwise numpy operations the kernels of `mmd.py` are
+    written with (1-d arrays are lists, 2-d arrays are lists of rows; an object array of Python ints is a `List Int`).  Every
+    definition below is compared with CPython / numpy in `harness/prelude_check.py` (ops `t16_*` of the driver, run at `ν = Rat`).
+    Float rounding, `nan` / `inf` and numpy's warnings are NOT modelled. -/
+
+/-- `max(a, b)` on numeric values: Python returns `b` only when `b > a` -/
+def maxNum {ν : Type} [PyNum ν] (a b : ν) : ν := if PyNum.lt a b then b else a
+
+/-- `-x` on a numeric value -/
+def negNum {ν : Type} [PyNum ν] (x : ν) : ν := ((0 : Int) : ν) - x
+
+/-- `math.log(x)`: `ValueError` (math domain error) unless `x > 0`; the value on positive arguments is the external `log` -/
+def mathLogE {ν : Type} [PyNum ν] (log : ν → ν) (x : ν) : Except Exc4 ν :=
+  if PyNum.lt ((0 : Int) : ν) x then .ok (log x) else .error .value
+
+/-- the binary digits of `int(s, 2)` after the sign: non-empty, `0` / `1` only -/
+def parseBin2Aux : Nat → Str → Option Nat
+  | acc, [] => some acc
+  | acc, c :: cs =>
+    if c = '0' then parseBin2Aux (2 * acc) cs
+    else if c = '1' then parseBin2Aux (2 * acc + 1) cs
+    else none
+
+/-- `int(s, 2)`: an optional sign followed by a non-empty string of binary digits; every other string is a `ValueError`.
+    DOMAIN: strings over decimal digits, `+` and `-` (what `"".join(map(str, ints))` produces; Python also accepts whitespace,
+    underscores and a `0b` prefix). -/
+def intBase2E : Str → Except Exc4 Int
+  | [] => .error .value
+  | c :: r =>
+    let digits (s : Str) : Option Nat := match s with
+      | [] => none
+      | _ => parseBin2Aux 0 s
+    if c = '-' then ofOption .value ((digits r).map (fun (n : Nat) => -(Int.ofNat n)))
+    else if c = '+' then ofOption .value ((digits r).map Int.ofNat)
+    else ofOption .value ((digits (c :: r)).map Int.ofNat)
+
+/-- `set(xs).union(ys)` in the representation of `setOfList` (distinct elements in order of first occurrence); the ITERATION order
+    is an external (`ext_set_order`, applied where the set is built: CPython iterates an unmodified set in one fixed order) -/
+def setUnion {α : Type} [BEq α] (a : PySet α) (ys : List α) : PySet α :=
+  ys.foldl (fun acc x => if acc.contains x then acc else acc ++ [x]) a
+
+/-- a value that is a number or a sequence of numbers (`hasattr(x, "__len__")` tells them apart) -/
+inductive NumOrSeq (ν : Type) where
+  | num (x : ν)
+  | seq (xs : List ν)
+
+/-- a 1-d / 2-d numpy array: the list of its entries / of its rows (kept apart from Python lists by the translator: `+` on arrays
+    is elementwise, on lists it is concatenation) -/
+abbrev NpVec (α : Type) := List α
+abbrev NpMat (α : Type) := List (List α)
+
+/-- `x[:, None] - y[None, :]` on 1-d arrays of ints: the matrix of all differences -/
+def npOuterSub (x y : NpVec Int) : NpMat Int := x.map (fun a => y.map (fun b => a - b))
+/-- `np.abs(m)` on a 2-d array of ints -/
+def npAbs2 (m : NpMat Int) : NpMat Int := m.map (fun r => r.map absInt)
+/-- `m ** k` on a 2-d array of ints, `k ≥ 0` a constant -/
+def npPow2 (m : NpMat Int) (k : Int) : NpMat Int := m.map (fun r => r.map (fun a => a ^ k.toNat))
+/-- `m.astype(float)` on a 2-d array of ints -/
+def npAsFloat2 {ν : Type} [PyNum ν] (m : NpMat Int) : NpMat ν := m.map (fun r => r.map (fun a => ((a : Int) : ν)))
+/-- `c * m` for a number and a 2-d array -/
+def npScale2 {ν : Type} [PyNum ν] (c : ν) (m : NpMat ν) : NpMat ν := m.map (fun r => r.map (fun a => c * a))
+/-- a numpy ufunc applied to a 2-d array: elementwise -/
+def npMap2 {ν : Type} (f : ν → ν) (m : NpMat ν) : NpMat ν := m.map (fun r => r.map f)
+/-- `np.zeros(m.shape)` -/
+def npZerosLike2 {α ν : Type} [PyNum ν] (m : NpMat α) : NpMat ν := m.map (fun r => r.map (fun _ => ((0 : Int) : ν)))
+/-- `a + b` / `a += b` on 2-d arrays.  DOMAIN: equal shapes. -/
+def npAdd2 {ν : Type} [PyNum ν] (a b : NpMat ν) : NpMat ν := List.zipWith (fun r s => List.zipWith (· + ·) r s) a b
+/-- `m / k` for a 2-d array and an int.  DOMAIN: `k ≠ 0` (numpy returns `nan` / `inf` with a warning, no exception). -/
+def npDivInt2 {ν : Type} [PyNum ν] (m : NpMat ν) (k : Int) : NpMat ν := m.map (fun r => r.map (fun a => a / ((k : Int) : ν)))
+/-- `a - b` on 1-d arrays.  DOMAIN: equal lengths. -/
+def npSub1 {ν : Type} [PyNum ν] (a b : NpVec ν) : NpVec ν := List.zipWith (· - ·) a b
+/-- `a.dot(b)` on 1-d arrays (sum of products, left to right).  DOMAIN: equal lengths. -/
+def npDot1 {ν : Type} [PyNum ν] (a b : NpVec ν) : ν := sumNum (List.zipWith (· * ·) a b)
+/-- `m.dot(v)` for a 2-d and a 1-d array.  DOMAIN: every row as long as `v`. -/
+def npMatVec {ν : Type} [PyNum ν] (m : NpMat ν) (v : NpVec ν) : NpVec ν := m.map (fun r => npDot1 r v)
+-- --- end T16
+
 end OQ.Py
